@@ -19,3 +19,4 @@ import SpoxModel.Props.C04
 #print axioms C04.build_valid_of_facts
 #print axioms C04.build_valid
 #print axioms C04.build_correct
+#print axioms C04.build_valid_checked
